@@ -521,7 +521,17 @@ func (authType *ClientAuthType) MarshalJSON() ([]byte, error) {
 }
 
 func (authType *ClientAuthType) UnmarshalJSON(b []byte) error {
-	panic("unimplemented")
+	var name string
+	if err := json.Unmarshal(b, &name); err != nil {
+		return err
+	}
+	for t := NoClientCert; t <= RequireAndVerifyClientCert; t++ {
+		if t.String() == name {
+			*authType = t
+			return nil
+		}
+	}
+	return fmt.Errorf("tls: unknown client auth type %q", name)
 }
 
 // requiresClientCert reports whether the ClientAuthType requires a client
